@@ -124,6 +124,76 @@ def word_leg(ctx, binp, n, legname):
     ctx.extra["inside_model_fragment_words"] = total
 
 
+STMT_PRELUDE = """From Verif Require Import Base.Str Syntax.Word Syntax.MiniAst Syntax.MiniPrinter Syntax.MiniParser.
+Open Scope N_scope.
+Ltac chk3 i :=
+  vm_compute; split; [ tryif reflexivity then idtac else idtac "MISMATCH" 1 i
+  | split; [ tryif reflexivity then idtac else idtac "MISMATCH" 2 i
+           | tryif reflexivity then idtac else idtac "MISMATCH" 3 i ] ].
+"""
+
+
+def stmt_leg(ctx, n):
+    """code leg at level S (statements): harness/cmd/c01s vs Syntax/MiniPrinter.v + MiniParser.v, in the kernel."""
+    binp = ctx.go_build("c01s")
+    if not binp:
+        return
+    rc, rows, err = ctx.jsonl([binp, "stmts", "-seed", str(ctx.seed), "-n", str(n), "-tier", ctx.tier], timeout=300)
+    summ = None
+    cases = []
+    for r in rows:
+        if "summary" in r:
+            summ = r["summary"]
+        elif "tree" in r:
+            cases.append(r)
+    if rc != 0 or summ is None or not cases:
+        ctx.broken.append(("harness-run", "c01s stmts failed rc=%d %s" % (rc, err[-600:])))
+        return
+    good = []
+    for r in cases:
+        src_text = bytes.fromhex(r["src"]).decode("utf-8", "replace")
+        if r.get("err"):
+            # the real printer's output for a fragment program does not re-parse (into the fragment): a concrete C01 failure
+            ctx.fail("stmt_reparse", {"src": r["src"], "src_text": src_text, "opts": r["opts"], "out": r.get("out")}, None, r["err"])
+        elif not r["same"]:
+            ctx.fail("stmt_roundtrip", {"src": r["src"], "src_text": src_text, "opts": r["opts"],
+                                        "out_text": bytes.fromhex(r["out"]).decode("utf-8", "replace")}, None,
+                     "real Parse(Print(tree)) differs from tree on a fragment program")
+        else:
+            good.append(r)
+    mism = []
+    total = 0
+    legname = "code:Printer separators (stmtList/stmt/command/ifClause...) + Parser statements vs Syntax/MiniPrinter.v, MiniParser.v (vm_compute in kernel)"
+    for sh in range(0, len(good), 600):
+        part = good[sh:sh + 600]
+        lines = [STMT_PRELUDE]
+        for i, r in enumerate(part):
+            pf = "sl_print_file" if r["mode"] == "single" else "ml_print_file"
+            # reparse == tree for every case kept in `good`
+            lines.append("Goal let t := %s in let o := %s in %s t = o /\\ parse_file o = Some t /\\ parse_file %s = Some t. chk3 %d. Abort."
+                         % (r["tree"], coq_bytes(r["out"]), pf, coq_bytes(r["src"]), i))
+        ok, out = ctx.coq_cases("%s_stmts_%d" % (ctx.pid.lower(), sh), "\n".join(lines) + "\n")
+        if not ok:
+            ctx.broken.append(("correspondence:code-eval", "coqc on generated statement cases failed: " + out[-800:]))
+            return
+        total += len(part)
+        what = {"1": "model print_file bytes differ from the real Printer", "2": "model parse_file of the printed text differs from the real Parser",
+                "3": "model parse_file of the source differs from the real Parser"}
+        seen = set()
+        for tag, i in re.findall(r"MISMATCH\s+(\d)\s+(\d+)", out):
+            r = part[int(i)]
+            if (tag, i) in seen:
+                continue
+            seen.add((tag, i))
+            mism.append({"what": what[tag], "src_text": bytes.fromhex(r["src"]).decode("utf-8", "replace"), "opts": r["opts"],
+                         "go_out": bytes.fromhex(r["out"]).decode("utf-8", "replace")})
+    ctx.leg(legname, total, mism, note="%d fragment programs (pinned separator cases + generated, random layout); outside/err: %s" % (
+        total, json.dumps({k: v for k, v in summ.items() if k != "cases"})))
+    ctx.extra["inside_model_fragment_stmts"] = total
+    for r in good:
+        ctx.nontrivial.add(("stmts", r["id"]))
+
+
 def run_search(ctx, cmd):
     """whole-language search shared by C01/C02/C05. Returns the harness binary path (or None)."""
     binp = ctx.go_build(cmd)
@@ -196,6 +266,7 @@ def run(ctx):
         return
     word_leg(ctx, binp, 450 if ctx.tier == "quick" else 20000,
              "code:Printer.wordPart/dblQuoted/paramExp + Parser word parts vs Syntax/Word.v (vm_compute in kernel)")
+    stmt_leg(ctx, 200 if ctx.tier == "quick" else 6000)
     rerun_witnesses(ctx, binp)
     ctx.assumptions += [
         "proof covers level W only (Lit, '..', $'..', \"..\", $\"..\", $x, ${x}; LangBash; delimiters blank tab newline ; & | )); "
